@@ -125,6 +125,7 @@ type Scenario struct {
 	FailAt  int // 1-based index of the transport write/writev call that fails (0 = none)
 	Buffered int // > 0: the library's write-buffered transport of this size over a connection under the controller; -1: its unbuffered wrapper
 	Big      bool
+	Stalled  bool // the peer does not read: transport writes end only when the transport is closed
 	Consume  bool // a user handler consumes every exception (the channel's own failure handling must not depend on the tail)
 	conn    *ctlConn
 }
@@ -157,6 +158,9 @@ func runScenario(sc *Scenario, strat rt.Strategy) *rt.Controller {
 			}
 			return nil
 		}
+	}
+	if sc.Stalled {
+		tr.Stall = func(ready func() bool) { c.Await("tr.stalled", ready) }
 	}
 	onCall := func(call mock.Call) {
 		e := ""
@@ -329,6 +333,9 @@ func printRun(prop string, sc *Scenario, c *rt.Controller) {
 	}
 	if sc.FailAt > 0 {
 		emit("%s failwrite %d", prop, sc.FailAt)
+	}
+	if sc.Stalled {
+		emit("%s stalled", prop)
 	}
 	for _, th := range sc.Threads {
 		ops := make([]string, len(th.Ops))
